@@ -232,20 +232,22 @@ fn continuation(ctx: &Ctx) {
                 });
                 report_cont(ctx, "Gibbs", r, n, 3, a + b, &case);
             }
+            macro_rules! hmc_cont {
+                ($T:ty, $B:ty, $name:expr) => {{
             // ---- HMC (f64 backend; n_collect >= 1 on each call: an empty tensor cannot be built by the backend)
             {
-                let case = json!({"kind": "continuation", "sampler": "HMC", "a": a, "b": b, "d": d, "n_chains": n});
+                let case = json!({"kind": "continuation", "sampler": $name, "a": a, "b": b, "d": d, "n_chains": n});
                 ctx.evals(1);
                 ctx.transitions(3);
                 let r = catch(|| {
-                    let mut s1 = hmc_build::<f64, BF64>(n, Some(seed), false);
+                    let mut s1 = hmc_build::<$T, $B>(n, Some(seed), false);
                     let t1 = s1.run(a, d);
                     let t2 = s1.run(b, 0);
                     let (d1, d2) = (t1.dims(), t2.dims());
-                    let mut s2 = hmc_build::<f64, BF64>(n, Some(seed), false);
+                    let mut s2 = hmc_build::<$T, $B>(n, Some(seed), false);
                     let t = s2.run(a + b, d);
                     let dt = t.dims();
-                    let mut s3 = hmc_build::<f64, BF64>(n, Some(seed), false);
+                    let mut s3 = hmc_build::<$T, $B>(n, Some(seed), false);
                     let mut per_step: Vec<Vec<Vec<f64>>> = vec![];
                     for i in 0..(a + b + d) {
                         s3.step();
@@ -265,7 +267,14 @@ fn continuation(ctx: &Ctx) {
                     }
                     (concat_rows(n, 2, &[(a, v(&t1)), (b, v(&t2))]), v(&t), manual, last)
                 });
-                report_cont(ctx, "HMC", r, n, 2, a + b, &case);
+                report_cont(ctx, $name, r, n, 2, a + b, &case);
+            }
+                }};
+            }
+            hmc_cont!(f64, BF64, "HMC");
+            // scalar type narrower than the backend float: the sampler state lives in the backend's precision between runs
+            if n <= 2 {
+                hmc_cont!(f32, BF64, "HMC<f32,NdArray<f64>>");
             }
         }
     });
